@@ -45,6 +45,7 @@ def shape(e):
 
 class C03Machine(M.MCMachine):
     PROP = ID
+    EXTERNAL_EDITS = True  # atoms edited by the user between two run calls: "before the trial" is the edited state
 
     def on_built(self):
         a = self.scn["atoms"]
